@@ -69,7 +69,7 @@ func Run(tier string, seed uint64, modelPath, repo string, out *res.Result) erro
 		nSpell, nShort, nBlocks, nVars, kwPerProp = 420000, 60000, 50000, 40000, 0
 	}
 	out.Rule = "P1: declarations = (harvested test literals | property x 1-4 atoms drawn from the atoms the real validator accepts for it, " +
-		"atoms = every keyword literal of the validators + lengths in all units, %, numbers, colours, strings, urls, functions) x 2 spelling variants; " +
+		"atoms = every keyword literal of the validators + lengths in all units, %, numbers, colours, strings, urls, functions) x 2 spelling variants, plus one variant with a non-ASCII look-alike (U+212A, U+0130, U+0131, U+017F after upper-case ASCII letters) in the name, a keyword, a unit or a function name, which must be rejected; " +
 		"P2: four-sides / border-radius / flex / generic shorthands with 1-5 component values vs explicit longhands and vs the model; background shorthands with 1-4 layers (image, position/size, repeat, attachment, one or two boxes per layer, colour on the last) vs the explicit longhand lists; " +
 		"P2c: `||` shorthands (columns, outline, column-rule, border-*, border, list-style, text-decoration, flex-flow) in every component order incl. auto/normal/none vs the longhands; `!important` with whitespace/comments around it through a sheet and a style attribute; P3: blocks of 2-6 declarations with 1-3 invalid ones interleaved; P4: var() graphs on a probe element (worker process), a third of them also through a style attribute. " +
 		"non-trivial = the base declaration is accepted and the variant differs textually (P1), the shorthand is accepted (P2), " +
@@ -218,6 +218,24 @@ func (rn *runner) spellOne(r *rng.R, name, value string, variants int) {
 			}
 			rn.add("judge", "judge:spelling", base+"  ~~  "+variant, txt1, txt0,
 				"the same declaration spelled differently (ASCII case / whitespace / comments) has another meaning", key, sub.Seed())
+		}
+	}
+	// non-ASCII look-alikes: matching is ASCII case-insensitive ONLY, so the declaration becomes invalid
+	if valid && !hasVarTok && r.P(1, 2) {
+		sub := r.Sub()
+		if text, kind, ctrl, ok := lookalikeDecl(sub, name, toks, keep); ok {
+			block := name + ": " + value + "; " + text
+			outB := preprocessText(block)
+			rn.out.Count(text, true)
+			rn.out.Hit("lookalike:" + kind)
+			if kind != "name" && ctrl != "" && len(preprocessText(ctrl)) != 0 {
+				// the position accepts any word at all: not a matter of case
+				rn.add("judge", "judge:invalid-accepted", name+": "+value+"; "+ctrl, declsText(preprocessText(ctrl)), "",
+					"an unknown "+kind+" is accepted instead of invalidating the declaration", "accepts-any-token:"+asciiLower(name), sub.Seed())
+			} else if len(preprocessText(text)) != 0 || declsText(outB) != declsText(preprocessText(name+": "+value)) {
+				rn.add("judge", "judge:non-ascii-case", block, declsText(outB), declsText(preprocessText(name+": "+value)),
+					"a "+kind+" spelled with a non-ASCII character that Unicode case folding maps to an ASCII letter (U+212A, U+0130, U+0131, U+017F) is accepted: matching must be ASCII case-insensitive only; the declaration must be dropped alone", "", sub.Seed())
+			}
 		}
 	}
 	rn.out.Sample(map[string]string{"base": base, "out": txt0})
@@ -791,7 +809,7 @@ func (rn *runner) vars(r *rng.R, n int) error {
 				lower = c.Prop + ": " + c.Lower + "; "
 			}
 			docAttr := "<style>html{ " + varsBlock(c.HTMLVars) + "} body{ color: #123456; font-family: Inheritedfam; text-align: center }</style><p style=\"" +
-				attrEscape(lower+varsBlock(c.PVars)+c.Prop+": "+c.Value) + "\"></p>"
+				attrEscape(c.Extra+lower+varsBlock(c.PVars)+c.Prop+": "+c.Value) + "\"></p>"
 			gotAttr, bad := rn.styles(docAttr, c.Observe)
 			rn.out.Hit("var:style-attribute")
 			if bad != "" {
